@@ -340,7 +340,12 @@ pub fn judge(m: &Machine) -> Result<bool, String> {
         return Ok(false);
     }
     wellformed(m).map_err(|e| format!("accepted by validation but not well-formed: {e}"))?;
-    // framework fractions in [0,1] never fail for an accepted machine, and it can be run
+    drive(m)?;
+    Ok(true)
+}
+
+/// Framework fractions in [0,1] never fail for an accepted machine, and it can be run.
+pub fn drive(m: &Machine) -> Result<(), String> {
     for (pf, bf) in [(0.0, 0.0), (1.0, 1.0), (0.5, 0.25)] {
         let r = std::panic::catch_unwind(std::panic::AssertUnwindSafe(|| -> Result<(), String> {
             let mut rng = WordRng::new(&[], 7);
@@ -359,7 +364,7 @@ pub fn judge(m: &Machine) -> Result<bool, String> {
             Err(_) => return Err(format!("an accepted machine cannot be run: {}", crate::explore::last_panic())),
         }
     }
-    Ok(true)
+    Ok(())
 }
 
 pub struct Cand {
@@ -405,8 +410,25 @@ pub fn candidates(q: bool) -> Vec<Cand> {
             }
         }
     }
-    // Binomial trials around the bound
-    for tr in [0u64, 1, 999_999_999, 1_000_000_000, 1_000_000_001, u64::MAX] {
+    // pairs of parameter slots both set to an extreme (quick tier too: e.g. both bounds the same infinity)
+    if q {
+        let ext = [f64::NAN, f64::INFINITY, f64::NEG_INFINITY, 0.0, -0.0, f64::MAX, -f64::MAX, f64::from_bits(1)];
+        for ty in 0..11 {
+            for s1 in 0..5 {
+                for s2 in (s1 + 1)..5 {
+                    for x in &ext {
+                        for y in &ext {
+                            if let Some(d) = dist_with2(ty, s1, *x, s2, *y) {
+                                v.push(Cand { label: format!("dist family {ty} slots ({s1},{s2}) = ({x:?},{y:?})"), m: literal_with_dist((s1 + s2 + ty) % NPOS, d) });
+                            }
+                        }
+                    }
+                }
+            }
+        }
+    }
+    // Binomial trials around the bound, and far above it with small low 32 bits
+    for tr in [0u64, 1, 999_999_999, 1_000_000_000, 1_000_000_001, u32::MAX as u64, 1 << 32, (1 << 32) + 1, (1 << 33) + 123_456_789, 0xFFFF_FFFF_0000_0000, 1 << 63, u64::MAX] {
         for p in [0.0, 1.0, 0.5, 1e-9] {
             v.push(Cand { label: format!("Binomial trials={tr} p={p}"), m: literal_with_dist(0, Dist { dist: DistType::Binomial { trials: tr, probability: p }, start: 0.0, max: 0.0 }) });
         }
@@ -516,12 +538,35 @@ pub fn worker(ctx: &WorkerCtx) -> WorkerOut {
             reported.push(Rep { signature: format!("C12:{kind}"), summary: format!("{}: {e}", cands[*i].label), replay: json!({"property": "C12", "engine": "E3", "candidate": cands[*i].label, "machine_debug": format!("{:?}", cands[*i].m), "serialized": std::panic::catch_unwind(std::panic::AssertUnwindSafe(|| cands[*i].m.serialize())).unwrap_or_default(), "message": e}) });
         }
     }
+    // Framework::new applies the same judgement to its own two fractions: accepted exactly when both are real numbers in [0,1]
+    let mut fw_judgements = 0u64;
+    if ctx.only_unit.is_none() {
+        let base = literal_with_fracs(0.5, 0.5);
+        let unit = |x: f64| x >= 0.0 && x <= 1.0;
+        let cs = corners();
+        for a in &cs {
+            for b in &cs {
+                fw_judgements += 1;
+                let got = std::panic::catch_unwind(std::panic::AssertUnwindSafe(|| Framework::new(std::slice::from_ref(&base), *a, *b, std::time::Instant::now(), WordRng::new(&[], 1)).is_ok()));
+                let want = unit(*a) && unit(*b);
+                let msg = match got {
+                    Ok(g) if g == want => continue,
+                    Ok(g) => format!("Framework::new(max_padding_frac={a:?}, max_blocking_frac={b:?}) {} although {}", if g { "succeeds" } else { "fails" }, if want { "both fractions are real numbers in [0,1]" } else { "a fraction is not a real number in [0,1]" }),
+                    Err(_) => format!("Framework::new(max_padding_frac={a:?}, max_blocking_frac={b:?}) panicked: {}", crate::explore::last_panic()),
+                };
+                let which = if !unit(*a) && unit(*b) { "padding" } else if unit(*a) && !unit(*b) { "blocking" } else { "both" };
+                if seen.insert(format!("fwfrac|{which}")) && reported.len() < 25 {
+                    reported.push(Rep { signature: format!("C12:framework-fractions:{which}"), summary: msg.clone(), replay: json!({"property": "C12", "engine": "E3", "candidate": format!("framework fractions ({a:?},{b:?})"), "machine_debug": format!("{:?}", base), "serialized": base.serialize(), "message": msg}) });
+                }
+            }
+        }
+    }
     let samples: Vec<Value> = cands.iter().step_by((cands.len() / 4).max(1)).take(4).map(|c| json!({"candidate": c.label})).collect();
     let coverage = json!({
         "evaluations": cands.len(), "distinct_nontrivial": acc.min(rej) * 2,
-        "rule": "candidates = base machine literals with one numeric slot (machine fractions, transition probabilities, every distribution parameter / start / max of all 11 families in 7 positions) set to each value of a 22-value corner menu, plus structural faults (no states, targets n, n+1, STATE_MAX, END, SIGNAL, usize::MAX, duplicates, per-event sums around 1); thorough: all pairs of slots within one distribution and pairs of fractions. Each candidate gets four judgements (Machine::new, validate, Framework::new, from_str(serialize)) which must agree; accepted candidates must satisfy an independent well-formedness predicate, build frameworks for fractions in [0,1] and run ten calls. distinct_nontrivial = 2 x min(accepted, rejected) (both outcomes exercised)",
+        "rule": "candidates = base machine literals with one numeric slot (machine fractions, transition probabilities, every distribution parameter / start / max of all 11 families in 7 positions) set to each value of a 22-value corner menu, plus structural faults (no states, targets n, n+1, STATE_MAX, END, SIGNAL, usize::MAX, duplicates, per-event sums around 1); pairs of slots within one distribution (quick: both at one of 8 extremes; thorough: all corner pairs) and pairs of fractions; Framework::new with every pair of corner values as its own fractions. Each candidate gets four judgements (Machine::new, validate, Framework::new, from_str(serialize)) which must agree; accepted candidates must satisfy an independent well-formedness predicate, build frameworks for fractions in [0,1] and run ten calls. distinct_nontrivial = 2 x min(accepted, rejected) (both outcomes exercised)",
         "samples": samples, "exhaustive": ctx.only_unit.is_none(),
-        "accepted": acc, "rejected": rej, "failing_candidates": fails.len(), "judgements": cands.len() * 4,
+        "accepted": acc, "rejected": rej, "failing_candidates": fails.len(), "judgements": cands.len() * 4, "framework_fraction_judgements": fw_judgements,
     });
     let vacuous = if (acc < 50 || rej < 50) && ctx.only_unit.is_none() && fails.is_empty() { Some(format!("accepted {acc}, rejected {rej}")) } else { None };
     WorkerOut { level: "exploration", coverage, assumptions: vec!["the well-formedness predicate for distribution parameters is no stronger than what rand_distr 0.4.3 enforces (e.g. a NaN mean of a Normal is not rejected by either)".into()], reported, vacuous }
